@@ -2,6 +2,8 @@
 mod verif_kani_numbers {
     use super::*;
     use winnow::stream::ContainsToken;
+    #[allow(unused_imports)]
+    use winnow::stream::Stream as _VerifStream;
     include!(concat!(env!("TOML_VERIF_KANI"), "/spec/oracles.rs"));
 
     #[kani::proof]
@@ -69,5 +71,111 @@ mod verif_kani_numbers {
             assert!(guard(&f), "guard refuses a finite value");
         }
         kani::cover!(f.is_finite());
+    }
+
+    // ------------------------------------------------------------------ K10: integer literals at the i64 edge
+    fn stub_format(_args: core::fmt::Arguments<'_>) -> String {
+        String::new()
+    }
+
+    /// `prefix` + N symbolic digits of the given radix (no underscores, no sign), then end of input:
+    /// Ok(v) <=> the mathematical value fits in i64, and then v is that value (O-int)
+    fn prefixed<const N: usize, const M: usize>(prefix: &[u8; 2], radix: u32) {
+        let digits: [u8; N] = kani::any();
+        let mut buf = [0u8; M];
+        buf[0] = prefix[0];
+        buf[1] = prefix[1];
+        let mut value: u128 = 0;
+        let mut i = 0;
+        while i < N {
+            let d = match digits[i] {
+                b'0'..=b'9' => (digits[i] - b'0') as u32,
+                b'a'..=b'f' => (digits[i] - b'a') as u32 + 10,
+                b'A'..=b'F' => (digits[i] - b'A') as u32 + 10,
+                _ => 99,
+            };
+            kani::assume(d < radix);
+            value = value * radix as u128 + d as u128;
+            buf[2 + i] = digits[i];
+            i += 1;
+        }
+        let text = match core::str::from_utf8(&buf) {
+            Ok(t) => t,
+            Err(_) => return,
+        };
+        let mut input = new_input(text);
+        let r = integer(&mut input);
+        match &r {
+            Ok(v) => {
+                assert!(value <= i64::MAX as u128, "an integer literal beyond i64 is accepted (wrapped or saturated)");
+                assert!(*v as i128 == value as i128, "integer literal decodes to the wrong value");
+                assert!(input.eof_offset() == 0, "integer literal not consumed entirely");
+            }
+            Err(_) => assert!(value > i64::MAX as u128, "an integer literal within i64 is rejected"),
+        }
+        kani::cover!(r.is_ok());
+        kani::cover!(r.is_err());
+        core::mem::forget(r);
+    }
+
+    #[kani::proof]
+    #[kani::unwind(20)]
+    #[kani::stub(alloc::fmt::format, stub_format)]
+    fn k10_hex16() {
+        prefixed::<16, 18>(b"0x", 16);
+    }
+
+    #[kani::proof]
+    #[kani::unwind(26)]
+    #[kani::stub(alloc::fmt::format, stub_format)]
+    fn k10_oct22() {
+        prefixed::<22, 24>(b"0o", 8);
+    }
+
+    #[kani::proof]
+    #[kani::unwind(68)]
+    #[kani::stub(alloc::fmt::format, stub_format)]
+    fn k10_bin64() {
+        prefixed::<64, 66>(b"0b", 2);
+    }
+
+    /// sign + 19 decimal digits (first digit 1-9): the i64 edge in base 10, both signs
+    #[kani::proof]
+    #[kani::unwind(24)]
+    #[kani::stub(alloc::fmt::format, stub_format)]
+    fn k10_dec19() {
+        let digits: [u8; 19] = kani::any();
+        let neg: bool = kani::any();
+        let mut buf = [0u8; 20];
+        buf[0] = if neg { b'-' } else { b'+' };
+        let mut value: i128 = 0;
+        let mut i = 0;
+        while i < 19 {
+            kani::assume(digits[i].is_ascii_digit());
+            value = value * 10 + (digits[i] - b'0') as i128;
+            buf[1 + i] = digits[i];
+            i += 1;
+        }
+        kani::assume(digits[0] != b'0');
+        if neg {
+            value = -value;
+        }
+        let text = match core::str::from_utf8(&buf) {
+            Ok(t) => t,
+            Err(_) => return,
+        };
+        let mut input = new_input(text);
+        let r = integer(&mut input);
+        let fits = value >= i64::MIN as i128 && value <= i64::MAX as i128;
+        match &r {
+            Ok(v) => {
+                assert!(fits, "a decimal literal beyond i64 is accepted (wrapped or saturated)");
+                assert!(*v as i128 == value, "decimal literal decodes to the wrong value");
+            }
+            Err(_) => assert!(!fits, "a decimal literal within i64 is rejected"),
+        }
+        kani::cover!(r.is_ok());
+        kani::cover!(r.is_err());
+        core::mem::forget(r);
     }
 }
